@@ -67,7 +67,7 @@ def generate(seed, batch):
             scen['faults'] = [{'call': c, 'kind': rng.choice(
                 ['ArpackNoConvergence', 'ArpackError', 'SingularFactor', 'MemoryError', 'ValueError'])} for c in sorted(calls)]
     elif batch == 'M':
-        kind = rng.choice(['panel', 'panel', 'panel', 'conecyl'])
+        kind = rng.choice(['panel', 'panel', 'panel', 'conecyl', 'assembly', 'bay'])
         scen['src'] = 'model'
         scen['sparse'] = rng.random() < 0.7 or kind == 'conecyl'
         scen['k'] = rng.choice([1, 2, 3, 5, 8])
@@ -96,6 +96,17 @@ def generate(seed, batch):
             scen['redefine_flags'] = ({f: float(rng.choice([0, 1])) for f in rng.sample(
                 ['u1tx', 'u2tx', 'v1tx', 'v2tx', 'w1tx', 'w1rx', 'w2tx', 'w2rx', 'u1ty', 'u2ty', 'v1ty', 'v2ty', 'w1ty', 'w1ry', 'w2ty', 'w2ry'],
                 rng.randint(1, 4))} if rng.random() < 0.35 else None)
+        elif kind in ('assembly', 'bay'):
+            # matrices of multi-component models (other null-row patterns, penalty connections), solved by analysis.lb
+            from . import c20 as _c20
+            sub = _c20.generate(rng.getrandbits(48), 'A' if kind == 'assembly' else 'B')
+            scen['impl'] = 'analysis'
+            scen['model'] = {'kind': kind, 'defn': sub['defn']}
+            if kind == 'assembly':
+                for pd in scen['model']['defn']['panels']:
+                    pd['Nxx'] = -1.0 * 10 ** rng.uniform(0, 3)
+            else:
+                scen['model']['defn']['Nxx'] = -1.0 * 10 ** rng.uniform(0, 3)
         else:
             scen['impl'] = 'conecyl'
             scen['model'] = {
@@ -164,6 +175,8 @@ def shrink_candidates(scen):
             yield c
     else:
         mo = scen['model']
+        if mo['kind'] in ('assembly', 'bay'):
+            return
         for key in ('m', 'n', 'm1', 'm2', 'n2'):
             if key in mo and mo[key] > 2:
                 c = copy.deepcopy(scen)
@@ -182,6 +195,9 @@ def build_model_matrices(scen):
     """Real package object for batch M; returns (obj, kind)."""
     import numpy as np
     mo = scen['model']
+    if mo['kind'] in ('assembly', 'bay'):
+        from . import c20 as _c20
+        return _c20.build(mo['kind'], mo['defn'])
     if mo['kind'] == 'panel':
         from compmech.panel import Panel
         p = Panel()
@@ -386,10 +402,11 @@ def execute(scen):
             Kd, Gd, active = eig.make_pair_lb(scen['mat'])
         else:
             obj = build_model_matrices(scen)
-            if scen['model']['kind'] == 'panel':
+            if scen['model']['kind'] in ('panel', 'assembly', 'bay'):
                 K0 = obj.calc_k0(silent=True)
                 G0 = obj.calc_kG0(silent=True)
                 Kd, Gd = K0.toarray(), G0.toarray()
+                bump(res['probes'], 'model_kind_' + scen['model']['kind'])
             else:
                 obj._calc_linear_matrices()
                 Kd = csr_matrix(obj.k0).toarray()[3:, 3:]
